@@ -102,6 +102,50 @@ impl State {
     }
 }
 
+/// Largest single allocation request since the last reset: "never … an oversized allocation on arbitrary bytes" (C16) is observed here —
+/// the decoders return the same value whether or not they pre-size a buffer from an unchecked length field.
+pub mod alloc_probe {
+    use std::alloc::{GlobalAlloc, Layout, System};
+    use std::sync::atomic::{AtomicUsize, Ordering};
+
+    pub static MAX: AtomicUsize = AtomicUsize::new(0);
+
+    pub struct Probe;
+
+    unsafe impl GlobalAlloc for Probe {
+        unsafe fn alloc(&self, l: Layout) -> *mut u8 {
+            MAX.fetch_max(l.size(), Ordering::Relaxed);
+            System.alloc(l)
+        }
+
+        unsafe fn dealloc(&self, p: *mut u8, l: Layout) {
+            System.dealloc(p, l)
+        }
+
+        unsafe fn realloc(&self, p: *mut u8, l: Layout, n: usize) -> *mut u8 {
+            MAX.fetch_max(n, Ordering::Relaxed);
+            System.realloc(p, l, n)
+        }
+    }
+
+    #[global_allocator]
+    static A: Probe = Probe;
+
+    pub fn reset() {
+        MAX.store(0, Ordering::Relaxed)
+    }
+
+    /// "" if the largest request stayed within two receive buffers plus 64 bytes per input byte, else " alloc=big:<bytes>"
+    pub fn verdict(input_len: usize) -> String {
+        let m = MAX.load(Ordering::Relaxed);
+        if m > 2 * 65536 + 64 * input_len {
+            format!(" alloc=big:{}", m)
+        } else {
+            String::new()
+        }
+    }
+}
+
 pub fn main() {
     // silence panic messages: a panic is an observation here
     // (VERIF_PANIC_MSG=1 prints the message and location to stderr, for the author of a replay)
